@@ -22,7 +22,8 @@
    The tie to par.rs is trace
    validation: every event log recorded from the implementation under schedule perturbation must be
    a run of the extracted LTS ending in the implementation's outcome (PAR stream). *)
-From FV Require Import Model.Base Model.Rice Model.Predict Model.Component Model.Encoder Model.Par Proofs.ParSmall Proofs.ParP Proofs.ParGlue.
+From FV Require Import Model.Base Model.Rice Model.Predict Model.Component Model.Encoder Model.Par Proofs.ParSmall Proofs.ParP Proofs.ParGlue
+  Proofs.StreamLists Proofs.Lossless Proofs.EncodeFrameE2E Proofs.ParsePrecomputed.
 
 Theorem C05_all_schedules_w1_b1 : all_schedules_ok (mkPlan 1 1 None (fun _ => false)) 40 = true.
 Proof. exact par_w1_b1. Qed.
@@ -66,3 +67,25 @@ Theorem C05_par_result_is_encode_blocks :
     end.
 Proof. exact par_result_is_encode_blocks. Qed.
 Print Assumptions C05_par_result_is_encode_blocks.
+
+Local Open Scope N_scope.
+(* the BYTES: the stream the multi-threaded encoder assembles consists of the single-threaded frames, each with its
+   bit stream precomputed in a worker (precompute_stream); the stream writer emits for it exactly the bytes of the
+   single-threaded stream *)
+Theorem C05_par_stream_same_bytes :
+  forall (ent : N -> N -> N -> N) (qlpc : N -> N -> qparams) (md5 : list N -> list N)
+         cfg rate channels bps bs samples s sp bytes (total : nat),
+    encode_stream ent qlpc md5 cfg rate channels bps bs samples = Ok s ->
+    precompute_stream s = Ok sp -> stream_bytes sp = Ok bytes ->
+    cfg_max_parameter cfg <= 14 -> In bps [8; 12; 16; 20; 24] -> rate <= 96000 -> 1 <= channels <= 8 ->
+    1 <= bs <= Generated.c_MAX_BLOCK_SIZE ->
+    length samples = (total * N.to_nat channels)%nat -> N.of_nat total < 2 ^ 36 ->
+    length (md5 (md5_input bps samples)) = 16%nat -> Forall (fun x => x < 256) (md5 (md5_input bps samples)) ->
+    (forall j b, nth_error (chunks (N.to_nat (bs * channels)) samples) j = Some b ->
+                 block_hyps qlpc cfg (N.of_nat j) channels bps b (length b / N.to_nat channels)) ->
+    stream_bytes s = Ok bytes.
+Proof.
+  intros ent qlpc md5 cfg rate channels bps bs samples s sp bytes total E Ep Eb Hmp Hbps Hrate Hch Hbs Hlen Htot Hml Hm256 Hblocks.
+  exact (proj1 (par_encoded_stream ent qlpc md5 cfg rate channels bps bs samples s sp bytes total E Ep Eb Hmp Hbps Hrate Hch Hbs Hlen Htot Hml Hm256 Hblocks)).
+Qed.
+Print Assumptions C05_par_stream_same_bytes.
